@@ -425,6 +425,11 @@ def clone_default_scripts(lens, prop, faults):
             if not faults:
                 out.append({"case": "default", "prop": prop, "ety": "tk", "steps": [{"op": "default", "n": n, "okind": kind}],
                             "d": {"op": "default", "kind": kind, "n": n}})
+            else:
+                # Default::default of the element type panics at its k-th call (the elements would get ids 1..n)
+                for k in range(1, n + 1):
+                    out.append({"case": "default", "prop": prop, "ety": "tk", "fuse_default": [k], "steps": [{"op": "default", "n": n, "okind": kind}],
+                                "d": {"op": "default", "kind": kind, "n": n, "default_panics_at": k}})
     return out
 
 
@@ -629,7 +634,7 @@ def with_etys(scns, etys):
     out = []
     for s in scns:
         for e in etys:
-            if e != "tk" and (s.get("fuse_drop") or s.get("fuse_clone")):
+            if e != "tk" and (s.get("fuse_drop") or s.get("fuse_clone") or s.get("fuse_default")):
                 continue
             if e in ("zst", "plz") and s.get("noanon"):
                 continue
